@@ -421,6 +421,49 @@ class UserSource(lazy_dataset.Dataset):
         return iter([{'src': self.offset + i} for i in range(self.n)])
 
 
+class UserStage(lazy_dataset.Dataset):
+    """A user-written pass-through stage (a Dataset subclass delegating length,
+    index access and copy) whose `__iter__` is an ordinary method: a failure
+    while the iteration is set up is raised by `iter(ds)` itself."""
+
+    def __init__(self, input_dataset):
+        self.input_dataset = input_dataset
+
+    def copy(self, freeze=False):
+        return self.__class__(self.input_dataset.copy(freeze=freeze))
+
+    @property
+    def indexable(self):
+        return self.input_dataset.indexable
+
+    @property
+    def ordered(self):
+        return self.input_dataset.ordered
+
+    def __len__(self):
+        return len(self.input_dataset)
+
+    def __getitem__(self, item):
+        if isinstance(item, numbers.Integral):
+            return self.input_dataset[item]
+        return super().__getitem__(item)
+
+    def __iter__(self, with_key=False):
+        if with_key:
+            raise ldc._ItemsNotDefined(self.__class__.__name__)
+        ctx = CTX
+        if ctx is not None:
+            f = ctx.fault_for('src_iter', (0,))
+            if f is not None:
+                k, i = f
+                e = EXC_KINDS[k]('src_iter', i)
+                ctx.raised.append(e)
+                ctx.fired[k] = ctx.fired.get(k, 0) + 1
+                ctx.event('raise', 'src_iter', (), k)
+                raise e
+        return iter(self.input_dataset)
+
+
 def make_source(src, offset=0):
     n = src['n']
     if src.get('kind', 'list') == 'user':
@@ -493,6 +536,8 @@ def apply_stage(ds, st, parallel=True):
         if st.get('map'):
             other = other.map(MapFn(st['map']))
         return ds.concatenate(other)
+    if op == 'userstage':
+        return UserStage(ds)
     if op == 'keyzip':
         off = st.get('offset', 300)
         keys = list(ds.keys())
